@@ -763,6 +763,10 @@ def well_typed(v, c):
     """len(x) / issubclass(x, ...) on an argument of the wrong type is reported by pyanalyze as
     incompatible_argument and the call then carries no constraint; such programs are kept out of
     the end-to-end stream (they are still checked through the constrain_value route)."""
+    # inside and/or the operands see x already narrowed by the other operands (a TypeGuard or an
+    # isinstance on Any replaces the type), so the tested types must fit len()/issubclass() too
+    if has_boolop(c):
+        v = tuple(v) + tuple(tested_of(c))
     for leaf in leaves_of(c):
         if leaf[0] in ("len", "rlen"):
             for b, _ in v:
